@@ -159,7 +159,12 @@ class Maker:
                 symx.ctx().assume(v.t <= symx.lift(hi))
             return v
         if name not in self.values and self.rng is not None:
-            self.values[name] = self.drawn[name] = _draw_real(self.rng, lo, hi, pos)
+            span = getattr(self, 'probe_span', None)
+            if span is not None and lo is None and hi is None:
+                v_ = self.rng.uniform(-span, span)
+                self.values[name] = self.drawn[name] = (abs(v_) + 1e-3) if pos else v_
+            else:
+                self.values[name] = self.drawn[name] = _draw_real(self.rng, lo, hi, pos)
         return float(self.values.get(name, 1.0 if pos else 0.0))
 
     def pos(self, name, hi=None):
@@ -340,7 +345,7 @@ def _draw_real(rng, lo, hi, pos):
     return float(v)
 
 
-def rescue(res, prop, h, seed=0, budget_s=25.0, max_probes=400):
+def rescue(res, prop, h, seed=0, budget_s=25.0, max_probes=400, span=None, found_by='concrete rescue probe'):
     """The symbolic engine met a construct it cannot encode (so no verdict can be claimed for
     this case).  To still *detect* a broken property, the harness is run concretely against
     the real library on probe inputs; a failing obligation is a replayed violation.  A clean
@@ -352,6 +357,8 @@ def rescue(res, prop, h, seed=0, budget_s=25.0, max_probes=400):
     while n < max_probes and time.time() - t0 < budget_s:
         n += 1
         m = Maker('conc', {}, rng=rng)
+        if span is not None:
+            m.probe_span = span
         symx.uninstall_quantity_patch()
         exc = None
         try:
@@ -368,7 +375,7 @@ def rescue(res, prop, h, seed=0, budget_s=25.0, max_probes=400):
         if m.failed:
             fnames = [f for f, _ in m.failed]
             entry = {'obligation': fnames[0], 'replayed_failures': fnames, 'inputs': dict(m.values),
-                     'exception': exc, 'case': res['name'], 'found_by': 'concrete rescue probe'}
+                     'exception': exc, 'case': res['name'], 'found_by': found_by}
             kf = KNOWN.match(prop, {k for _, k in m.failed}, fnames, res['name'])
             if kf is not None:
                 entry['known'] = kf
@@ -377,7 +384,7 @@ def rescue(res, prop, h, seed=0, budget_s=25.0, max_probes=400):
                 entry['replay'] = _replay_path(prop, res['name'], dict(m.values), fnames[0])
                 res['violations'].append(entry)
             break
-    res.setdefault('notes', []).append(f'concrete rescue: {n} probes')
+    res.setdefault('notes', []).append(f'{found_by}: {n} probes')
 
 
 class CaseResult(dict):
@@ -481,7 +488,7 @@ def atom_links(c):
     return out
 
 
-def run_case(prop, name, h, timeout_ms=30000, max_paths=400, allow_exceptions=(), shard=None):
+def run_case(prop, name, h, timeout_ms=30000, max_paths=400, allow_exceptions=(), shard=None, preprobe=None):
     """Symbolically explore harness h; discharge every obligation on every path.
     Returns a picklable CaseResult."""
     t0 = time.time()
@@ -489,6 +496,15 @@ def run_case(prop, name, h, timeout_ms=30000, max_paths=400, allow_exceptions=()
     res = CaseResult(name=name, paths=0, obligations=0, nontrivial=0, violations=[], known=[],
                      inconclusive=[], vacuity=0, samples=[], safety=0, exc_paths=0, notes=[])
     symx.install_quantity_patch()
+    if preprobe:
+        # cheap falsifier before the symbolic work (for obligations whose counter-MODELS are hard for the solver, e.g. NRA + UF):
+        # a concrete run that fails an obligation is a replayed violation; a clean probe decides nothing
+        rescue(res, prop, h, budget_s=preprobe.get('budget_s', 8.0), max_probes=preprobe.get('n', 300), span=preprobe.get('span'),
+               found_by='concrete pre-probe')
+        if res['violations']:
+            res['wall_s'] = round(time.time() - t0, 3)
+            res['stats'] = solve.STATS.as_dict()
+            return res
 
     def wrapped():
         m = Maker('sym')
@@ -564,6 +580,22 @@ def run_case(prop, name, h, timeout_ms=30000, max_paths=400, allow_exceptions=()
             drop = {t.get_id() for (_, t) in m.lemma_terms}
             sub = [f for f in p.pc if f.get_id() not in drop]
             r, _ = solve.check_sat(sub + solve.needed_defs(base, sub) + [solve.MARGIN == 0], min(timeout_ms, 10000))
+        if r == 'unknown' and all(kind_ == 'real' for (_, kind_, _) in m.inputs):
+            # the solver found no model in time: look for a concrete witness instead (inputs drawn at random; a run in which
+            # every assumption of the harness holds shows that the path condition is satisfiable)
+            import random as _random
+            rng = _random.Random(12345)
+            pos = {t.get_id() for t in getattr(m, 'pos_terms', ())}
+            for _ in range(4000):
+                vals = {n_: (abs(rng.uniform(-2, 2)) + 1e-3 if t_.get_id() in pos else rng.uniform(-2, 2)) for (n_, _, t_) in m.inputs}
+                try:
+                    failed, exc = run_concrete(h, vals)
+                except BaseException:  # noqa
+                    continue
+                if exc is None and not failed:
+                    r = 'sat'
+                    res['notes'].append('vacuity witness found by concrete search (solver unknown)')
+                    break
         if r == 'sat':
             res['vacuity'] += 1
         for ob_no, (obname, plen, term, key) in enumerate(m.obligations):
